@@ -270,6 +270,17 @@ def _alter_ext(t):
     return f
 
 
+def _rename_ext(t, new_t):
+    """turn the extension into one of an unknown type (the peer ignores it), payload and position unchanged"""
+    def f(h):
+        for i, e in enumerate(h.extensions or []):
+            if e.extType == t:
+                h.extensions[i] = TLSExtension(extType=new_t).create(bytearray(e.extData))
+                return
+        return False
+    return f
+
+
 def _add_empty_ext(t):
     def f(h):
         if h.extensions is None:
@@ -521,6 +532,8 @@ REWRITES = {
     'ch_max_ssl3': _ch(_ch_strip_versions_above((3, 0))),
     'ch_versions_only_tls10': _ch(_ch_versions_only((3, 1))),
     'ch_versions_only_tls12': _ch(_ch_versions_only((3, 3))),
+    'ch_rename_ems': _ch(_rename_ext(ExtensionType.extended_master_secret, 0xff17)),
+    'ch_rename_etm': _ch(_rename_ext(ExtensionType.encrypt_then_mac, 0xff16)),
     'ch_only_last_suite': _ch(_ch_only_last_suite),
     'ch_drop_first_suite': _ch(_ch_drop_first_suite),
     'ch_reverse_suites': _ch(_ch_reverse_suites),
